@@ -4,13 +4,16 @@
           --to_tc-->  Dim.Infer statements  --Dim.Infer.check-->        type-checked
           --to_vm-->  VM.Ast program        --VM.Compile / VM.Machine--> value
 
-   for the fragment all three models share: integer scalar literals, identifiers, strings without
-   interpolation, booleans, unary and binary operators, `if`, lists, calls of named functions,
-   `let`, `fn` with type parameters / annotations / where-locals, foreign function declarations,
-   print / assert / assert_eq.  Units are NOT in the fragment (the VM model's quantities are
-   plain integers).  Everything outside the fragment yields OutOfFragment, never a value.
+   for the fragment all three models share: decimal scalar literals (exact rationals: `5.5` is
+   11/2 — no exponents, no hex), identifiers, strings with and without interpolation, booleans,
+   unary and binary operators, `if`, lists, calls of named functions (also `x -> f` and
+   `x |> f(..)`), `let`, `fn` with type parameters / annotations / where-locals, foreign function
+   declarations, print / assert / assert_eq.  Scalars are exact rationals; an operation whose
+   result is not an exact rational (irrational root, division by zero = inf) or whose decimal
+   rendering needs rounding is "unmodelled" and makes the input OutOfFragment.  Units are NOT in
+   the fragment.  Everything outside the fragment yields OutOfFragment, never a value.
    Definitions only. *)
-From Coq Require Import String List ZArith NArith QArith Qcanon Bool Ascii.
+From Coq Require Import String List ZArith NArith QArith Qcanon Qround Qabs Bool Ascii.
 From NV Require Base.Show.
 From NV Require Syntax.Token Syntax.Ast Syntax.StmtAst Syntax.Lexer Syntax.Parser Syntax.Exec.
 From NV Require Dim.Model Dim.Infer Dim.Exec.
@@ -36,14 +39,50 @@ Fixpoint str_to_string (s : Syntax.Token.str) : option string :=
       else None
   end.
 
-(* decimal integer lexemes only *)
+(* decimal lexemes `digits` or `digits.digits` (the lexer has removed underscores); no exponent *)
 Fixpoint digits_to_Z (s : Syntax.Token.str) (acc : Z) : option Z :=
   match s with
   | [] => Some acc
   | c :: r => if ((48 <=? c) && (c <=? 57))%N then digits_to_Z r (acc * 10 + Z.of_N (c - 48))%Z else None
   end.
-Definition lexeme_to_Z (s : Syntax.Token.str) : option Z :=
-  match s with [] => None | _ => digits_to_Z s 0%Z end.
+Fixpoint split_dot (s : Syntax.Token.str) : Syntax.Token.str * option Syntax.Token.str :=
+  match s with
+  | [] => ([], None)
+  | c :: r => if (c =? 46)%N then ([], Some r) else let (a, b) := split_dot r in (c :: a, b)
+  end.
+(* 0x… / 0o… / 0b… integer literals *)
+Definition digit_val (c : N) : option Z :=
+  if ((48 <=? c) && (c <=? 57))%N then Some (Z.of_N (c - 48))
+  else if ((97 <=? c) && (c <=? 102))%N then Some (Z.of_N (c - 87))
+  else if ((65 <=? c) && (c <=? 70))%N then Some (Z.of_N (c - 55))
+  else None.
+Fixpoint radix_to_Z (base : Z) (s : Syntax.Token.str) (acc : Z) : option Z :=
+  match s with
+  | [] => Some acc
+  | c :: r => match digit_val c with
+              | Some d => if (d <? base)%Z then radix_to_Z base r (acc * base + d)%Z else None
+              | None => None
+              end
+  end.
+Definition lexeme_to_Q (s : Syntax.Token.str) : option Q :=
+  match s with
+  | 48%N :: 120%N :: (_ :: _) as r => option_map inject_Z (radix_to_Z 16 r 0%Z)
+  | 48%N :: 111%N :: (_ :: _) as r => option_map inject_Z (radix_to_Z 8 r 0%Z)
+  | 48%N :: 98%N :: (_ :: _) as r => option_map inject_Z (radix_to_Z 2 r 0%Z)
+  | _ =>
+  match split_dot s with
+  | ([], _) => None
+  | (ip, None) => option_map inject_Z (digits_to_Z ip 0%Z)
+  | (ip, Some []) => None
+  | (ip, Some fp) =>
+      match digits_to_Z ip 0%Z, digits_to_Z fp 0%Z with
+      | Some i, Some f =>
+          let d := Z.pow 10 (Z.of_nat (length fp)) in
+          Some (Qred (Qmake (i * d + f) (Z.to_pos d)))
+      | _, _ => None
+      end
+  end
+  end.
 
 Definition omap {A B} (f : A -> option B) : list A -> option (list B) :=
   fix go l := match l with
@@ -60,12 +99,35 @@ Definition tc_binop (o : S.binop) : T.binop :=
   | S.LogicalAnd => T.OAnd | S.LogicalOr => T.OOr
   end.
 
+(* The checker model has no constructor for interpolated strings.  numbat elaborates every
+   embedded expression (any type) and gives the string the type String; the same typing is
+   obtained from `if true then {}(e1) else (if true then {}(e2) else … "")` with the pseudo
+   foreign function `{}<T>(x: T) -> String` (declared in pinit; `{}` is not an identifier, so
+   no program can mention or redefine it). *)
+Definition interp_fn : string := "{}".
+Fixpoint tc_interp (es : list T.expr) : T.expr :=
+  match es with
+  | [] => T.EStr
+  | e :: r => T.EIf (T.EBool true) (T.ECall interp_fn [e]) (tc_interp r)
+  end.
+
+Section WithFunctions.
+(* names bound to functions (session + this input): `x -> f` with such an f is the call f(x) *)
+Variable isfn : string -> bool.
+
 Fixpoint to_tc (e : S.expr) : option T.expr :=
   match e with
-  | S.EScalar lx => match lexeme_to_Z lx with Some z => Some (T.EScalar (Dim.Model.qc z)) | None => None end
+  | S.EScalar lx => match lexeme_to_Q lx with Some q => Some (T.EScalar (Q2Qc q)) | None => None end
+  | S.EScalarExp k => Some (T.EScalar (Dim.Model.qc k))
   | S.EIdent n => option_map T.EIdent (str_to_string n)
   | S.EBool b => Some (T.EBool b)
   | S.EString _ => Some T.EStr
+  | S.EInterp parts =>
+      option_map (fun l => tc_interp (concat l))
+        (omap (fun p => match p with
+                        | S.PFixed _ => Some []
+                        | S.PExpr x _ => option_map (fun y => [y]) (to_tc x)
+                        end) parts)
   | S.EUn op a =>
       match op, to_tc a with
       | S.Negate, Some x => Some (T.EUn T.UNeg x)
@@ -74,9 +136,17 @@ Fixpoint to_tc (e : S.expr) : option T.expr :=
       | _, _ => None
       end
   | S.EBin op a b =>
-      match to_tc a, to_tc b with
-      | Some x, Some y => Some (T.EBin (tc_binop op) x y)
-      | _, _ => None
+      match op, b with
+      | S.ConvertTo, S.EIdent f =>
+          match str_to_string f, to_tc a with
+          | Some f', Some x => if isfn f' then Some (T.ECall f' [x]) else Some (T.EBin T.OConv x (T.EIdent f'))
+          | _, _ => None
+          end
+      | _, _ =>
+          match to_tc a, to_tc b with
+          | Some x, Some y => Some (T.EBin (tc_binop op) x y)
+          | _, _ => None
+          end
       end
   | S.ECall (S.EIdent f) args =>
       match str_to_string f, omap to_tc args with
@@ -170,12 +240,24 @@ Definition vm_binop (o : S.binop) : VM.Value.binop :=
   | S.LogicalOr => VM.Value.BOr
   end.
 
-Fixpoint to_vm (e : S.expr) : option (V.expr Z) :=
+Fixpoint to_vm (e : S.expr) : option (V.expr Q) :=
   match e with
-  | S.EScalar lx => option_map V.EScalar (lexeme_to_Z lx)
+  | S.EScalar lx => option_map V.EScalar (lexeme_to_Q lx)
+  | S.EScalarExp k => Some (V.EScalar (inject_Z k))
   | S.EIdent n => option_map V.EIdent (str_to_string n)
   | S.EBool b => Some (V.EBool b)
   | S.EString s => option_map (fun t => V.EString [inl t]) (str_to_string s)
+  | S.EInterp parts =>
+      option_map V.EString
+        (omap (fun p => match p with
+                        | S.PFixed t => option_map inl (str_to_string t)
+                        | S.PExpr x None => option_map (fun y => inr (y, None)) (to_vm x)
+                        | S.PExpr x (Some f) =>
+                            match to_vm x, str_to_string f with
+                            | Some y, Some f' => Some (inr (y, Some f'))
+                            | _, _ => None
+                            end
+                        end) parts)
   | S.EUn op a =>
       match op, to_vm a with
       | S.Negate, Some x => Some (V.EUn VM.Value.UNeg x)
@@ -184,9 +266,17 @@ Fixpoint to_vm (e : S.expr) : option (V.expr Z) :=
       | _, _ => None
       end
   | S.EBin op a b =>
-      match to_vm a, to_vm b with
-      | Some x, Some y => Some (V.EBin (vm_binop op) x y)
-      | _, _ => None
+      match op, b with
+      | S.ConvertTo, S.EIdent f =>
+          match str_to_string f, to_vm a with
+          | Some f', Some x => if isfn f' then Some (V.ECall f' [x]) else Some (V.EBin VM.Value.BConv x (V.EIdent f'))
+          | _, _ => None
+          end
+      | _, _ =>
+          match to_vm a, to_vm b with
+          | Some x, Some y => Some (V.EBin (vm_binop op) x y)
+          | _, _ => None
+          end
       end
   | S.ECall (S.EIdent f) args =>
       match str_to_string f, omap to_vm args with
@@ -202,13 +292,13 @@ Fixpoint to_vm (e : S.expr) : option (V.expr Z) :=
   | _ => None
   end.
 
-Definition vm_local (v : SS.defvar) : option (string * V.expr Z) :=
+Definition vm_local (v : SS.defvar) : option (string * V.expr Q) :=
   match str_to_string (SS.dv_name v), to_vm (SS.dv_expr v) with
   | Some x, Some e => Some (x, e)
   | _, _ => None
   end.
 
-Definition stmt_to_vm (s : SS.stmt) : option (V.stmt Z) :=
+Definition stmt_to_vm (s : SS.stmt) : option (V.stmt Q) :=
   match s with
   | SS.StExpr e => option_map V.SExpr (to_vm e)
   | SS.StLet v => match vm_local v with Some (x, e) => Some (V.SLet x e) | None => None end
@@ -232,36 +322,259 @@ Definition stmt_to_vm (s : SS.stmt) : option (V.stmt Z) :=
   | _ => None
   end.
 
+End WithFunctions.
+
 (* ------------------------------------------------------------------ the run-time primitives *)
-(* the integer instance of VM.Exec with two more foreign functions (ffi/math.rs abs, mod) *)
-Definition pffi (name : string) (args : list (VM.Value.value Z)) : VM.Value.res (VM.Value.value Z) :=
-  if String.eqb name "abs" then
-    match args with [VM.Value.VQ a] => VM.Value.Ok (VM.Value.VQ (Z.abs a)) | _ => VM.Value.Wrong end
-  else if String.eqb name "mod" then
+(* The VM model is parametric in the quantity type; here a quantity is an exact rational (Qred-
+   normalised).  numbat computes in f64: the instance answers only where the f64 computation
+   is exact for the short decimals of the examples and says "unmodelled…" otherwise. *)
+Definition unmodelled {A} (why : string) : VM.Value.res A := VM.Value.Err ("unmodelled-" ++ why).
+Definition q_is_int (q : Q) : bool := Pos.eqb (Qden (Qred q)) 1.
+Definition q_trunc (q : Q) : Z := if Qle_bool 0 q then Qfloor q else Qceiling q.
+Definition q_round (q : Q) : Z :=           (* f64::round: half away from zero *)
+  if Qle_bool 0 q then Qfloor (q + (1 # 2)) else Qceiling (q - (1 # 2)).
+Definition q_ltb (a b : Q) : bool := Qle_bool a b && negb (Qeq_bool a b).
+
+Definition perfect_sqrt (z : Z) : option Z :=
+  let r := Z.sqrt z in if (Z.leb 0 z && Z.eqb (r * r) z)%bool then Some r else None.
+
+Definition qpow_int (a : Q) (n : Z) : VM.Value.res Q :=
+  if (Qeq_bool a 0 && Z.ltb n 0)%bool then unmodelled "division-by-zero" else VM.Value.Ok (Qred (Qpower a n)).
+
+Definition qarith (op : VM.Value.binop) (a b : Q) : VM.Value.res Q :=
+  match op with
+  | VM.Value.BAdd => VM.Value.Ok (Qred (a + b))
+  | VM.Value.BSub => VM.Value.Ok (Qred (a - b))
+  | VM.Value.BMul => VM.Value.Ok (Qred (a * b))
+  | VM.Value.BDiv => if Qeq_bool b 0 then unmodelled "division-by-zero" else VM.Value.Ok (Qred (a / b))
+  | VM.Value.BPow =>
+      let e := Qred b in
+      match Qden e with
+      | 1%positive => qpow_int a (Qnum e)
+      | 2%positive =>
+          let a' := Qred a in
+          match perfect_sqrt (Qnum a'), perfect_sqrt (Zpos (Qden a')) with
+          | Some n, Some (Zpos d) => qpow_int (Qmake n d) (Qnum e)
+          | _, _ => unmodelled "irrational-power"
+          end
+      | _ => unmodelled "irrational-power"
+      end
+  | VM.Value.BConv => VM.Value.Ok a             (* scalar -> scalar *)
+  | _ => VM.Value.Wrong
+  end.
+Definition qcmp (op : VM.Value.binop) (a b : Q) : VM.Value.res bool :=
+  match op with
+  | VM.Value.BLt => VM.Value.Ok (q_ltb a b)
+  | VM.Value.BGt => VM.Value.Ok (q_ltb b a)
+  | VM.Value.BLe => VM.Value.Ok (Qle_bool a b)
+  | VM.Value.BGe => VM.Value.Ok (Qle_bool b a)
+  | _ => VM.Value.Wrong
+  end.
+Definition qfact (order : nat) (q : Q) : VM.Value.res Q :=
+  if q_is_int q then
+    match VM.Exec.zfact order (Qnum (Qred q)) with
+    | VM.Value.Ok z => VM.Value.Ok (inject_Z z)
+    | VM.Value.Err e => VM.Value.Err e
+    | VM.Value.Wrong => VM.Value.Wrong
+    | VM.Value.Fuel => VM.Value.Fuel
+    end
+  else VM.Value.Err "FactorialOfNonInteger".
+
+(* how numbat prints a scalar: integers as VM.Exec.show_q; a non-integer only if it is a decimal
+   with at most 6 significant digits and magnitude >= 0.001 (then no rounding is involved) *)
+Definition unmodelled_mark : string := "?unmodelled".
+Fixpoint decimal_places (fuel k : nat) (q : Q) : option (nat * Z) :=
+  let x := Qred (q * inject_Z (Z.pow 10 (Z.of_nat k))) in
+  if Pos.eqb (Qden x) 1 then Some (k, Qnum x) else
+  match fuel with O => None | S f => decimal_places f (S k) q end.
+Fixpoint zeros (n : nat) : string := match n with O => "" | S k => "0" ++ zeros k end.
+Definition qshow (q : Q) : string :=
+  let q := Qred q in
+  if q_is_int q then VM.Exec.show_q (Qnum q) else
+  let neg := negb (Qle_bool 0 q) in
+  let aq := if neg then Qopp q else q in
+  match decimal_places 6 0 aq with
+  | Some (k, n) =>
+      let p := Z.pow 10 (Z.of_nat k) in
+      let digits := Base.Show.show_Z n in
+      if (Nat.leb (String.length digits) 6 && Z.leb (Z.pow 10 (Z.of_nat k - 3)) n && Z.ltb (n / p) 100000)%bool then
+        let fp := Base.Show.show_Z (n mod p) in
+        (if neg then "-" else "") ++ Base.Show.show_Z (n / p) ++ "." ++ zeros (k - String.length fp) ++ fp
+      else unmodelled_mark
+  | None => unmodelled_mark
+  end.
+
+(* exact logarithms: only of exact powers of the base (there the f64 result is the integer) *)
+Fixpoint ilog (fuel : nat) (base x acc : Z) : option Z :=
+  match fuel with
+  | O => None
+  | S f => if Z.eqb x 1 then Some acc
+           else if Z.eqb (x mod base) 0 then ilog f base (x / base) (acc + 1)%Z else None
+  end.
+Definition qlog (base : Z) (q : Q) : option Z :=
+  let q := Qred q in
+  if Z.leb (Qnum q) 0 then None
+  else if Pos.eqb (Qden q) 1 then ilog (S (Z.to_nat (Z.log2 (Qnum q)))) base (Qnum q) 0%Z
+  else if Z.eqb (Qnum q) 1 then option_map Z.opp (ilog (S (Z.to_nat (Z.log2 (Zpos (Qden q))))) base (Zpos (Qden q)) 0%Z)
+  else None.
+
+(* ffi parse on plain numbers: an optional minus sign and one numeric literal (underscores removed,
+   as the tokenizer does) *)
+Fixpoint string_codes (s : string) : list N :=
+  match s with
+  | EmptyString => []
+  | String c r => N.of_nat (nat_of_ascii c) :: string_codes r
+  end.
+Definition parse_number (s : string) : option Q :=
+  let cs := filter (fun c => negb (N.eqb c 95)) (string_codes s) in
+  match cs with
+  | 45%N :: r => option_map Qopp (lexeme_to_Q r)
+  | _ => lexeme_to_Q cs
+  end.
+
+Definition qv (q : Q) : VM.Value.res (VM.Value.value Q) := VM.Value.Ok (VM.Value.VQ (Qred q)).
+Definition qz (z : Z) : VM.Value.res (VM.Value.value Q) := VM.Value.Ok (VM.Value.VQ (inject_Z z)).
+
+(* the foreign functions of the fragment (ffi/lists.rs, strings.rs, math.rs, functions.rs) on
+   exact rationals; every quantity of the fragment is a plain scalar *)
+Definition qffi (name : string) (args : list (VM.Value.value Q)) : VM.Value.res (VM.Value.value Q) :=
+  let is x := String.eqb name x in
+  if is "len" then
+    match args with [VM.Value.VList l] => qz (Z.of_nat (length l)) | _ => VM.Value.Wrong end
+  else if is "head" then
+    match args with [VM.Value.VList (x :: _)] => VM.Value.Ok x | [VM.Value.VList []] => VM.Value.Err "EmptyList" | _ => VM.Value.Wrong end
+  else if is "tail" then
+    match args with [VM.Value.VList (_ :: r)] => VM.Value.Ok (VM.Value.VList r) | [VM.Value.VList []] => VM.Value.Err "EmptyList" | _ => VM.Value.Wrong end
+  else if is "cons" then
+    match args with [x; VM.Value.VList l] => VM.Value.Ok (VM.Value.VList (x :: l)) | _ => VM.Value.Wrong end
+  else if is "cons_end" then
+    match args with [x; VM.Value.VList l] => VM.Value.Ok (VM.Value.VList (l ++ [x])%list) | _ => VM.Value.Wrong end
+  else if is "str_length" then
+    match args with [VM.Value.VStr s] => qz (Z.of_nat (String.length s)) | _ => VM.Value.Wrong end
+  else if is "str_slice" then
     match args with
-    | [VM.Value.VQ a; VM.Value.VQ b] =>
-        if Z.eqb b 0 then VM.Value.Err "unmodelled-mod-by-zero" else VM.Value.Ok (VM.Value.VQ (Z.modulo a (Z.abs b)))
+    | [VM.Value.VQ a; VM.Value.VQ b; VM.Value.VStr s] =>
+        let a' := Z.to_nat (q_trunc a) in
+        let b' := Z.to_nat (q_trunc b) in
+        if (Nat.leb a' b' && Nat.leb b' (String.length s))%bool
+        then VM.Value.Ok (VM.Value.VStr (String.substring a' (b' - a') s)) else VM.Value.Ok (VM.Value.VStr "")
     | _ => VM.Value.Wrong
     end
-  else VM.Exec.zffi name args.
+  else if is "uppercase" then
+    match args with [VM.Value.VStr s] => VM.Value.Ok (VM.Value.VStr (VM.Exec.map_ascii VM.Exec.upper_ascii s)) | _ => VM.Value.Wrong end
+  else if is "lowercase" then
+    match args with [VM.Value.VStr s] => VM.Value.Ok (VM.Value.VStr (VM.Exec.map_ascii VM.Exec.lower_ascii s)) | _ => VM.Value.Wrong end
+  else if is "chr" then
+    match args with
+    | [VM.Value.VQ a] =>
+        if (q_is_int a && Qle_bool 1 a && Qle_bool a 127)%bool
+        then VM.Value.Ok (VM.Value.VStr (String (ascii_of_nat (Z.to_nat (Qnum (Qred a)))) ""))
+        else unmodelled "chr-outside-ascii"
+    | _ => VM.Value.Wrong
+    end
+  else if is "abs" then
+    match args with [VM.Value.VQ a] => qv (Qabs a) | _ => VM.Value.Wrong end
+  else if is "floor" then
+    match args with [VM.Value.VQ a] => qz (Qfloor a) | _ => VM.Value.Wrong end
+  else if is "ceil" then
+    match args with [VM.Value.VQ a] => qz (Qceiling a) | _ => VM.Value.Wrong end
+  else if is "round" then
+    match args with [VM.Value.VQ a] => qz (q_round a) | _ => VM.Value.Wrong end
+  else if is "trunc" then
+    match args with [VM.Value.VQ a] => qz (q_trunc a) | _ => VM.Value.Wrong end
+  else if is "fract" then
+    match args with [VM.Value.VQ a] => qv (a - inject_Z (q_trunc a)) | _ => VM.Value.Wrong end
+  else if is "mod" then
+    (* f64::rem_euclid: r = a - b*trunc(a/b); r < 0 => r + |b| *)
+    match args with
+    | [VM.Value.VQ a; VM.Value.VQ b] =>
+        if Qeq_bool b 0 then unmodelled "mod-by-zero" else
+        let r := a - b * inject_Z (q_trunc (a / b)) in
+        qv (if Qle_bool 0 r then r else r + Qabs b)
+    | _ => VM.Value.Wrong
+    end
+  else if is "log2" then
+    match args with
+    | [VM.Value.VQ a] => match qlog 2 a with Some k => qz k | None => unmodelled "inexact-logarithm" end
+    | _ => VM.Value.Wrong
+    end
+  else if is "log10" then
+    match args with
+    | [VM.Value.VQ a] => match qlog 10 a with Some k => qz k | None => unmodelled "inexact-logarithm" end
+    | _ => VM.Value.Wrong
+    end
+  else if is "parse" then
+    match args with
+    | [VM.Value.VStr t] => match parse_number t with Some q => qv q | None => unmodelled "parse-of-an-expression" end
+    | _ => VM.Value.Wrong
+    end
+  else if is "is_nan" then
+    match args with [VM.Value.VQ _] => VM.Value.Ok (VM.Value.VBool false) | _ => VM.Value.Wrong end
+  else if is "is_infinite" then
+    match args with [VM.Value.VQ _] => VM.Value.Ok (VM.Value.VBool false) | _ => VM.Value.Wrong end
+  else if is "is_dimensionless" then
+    match args with [VM.Value.VQ _] => VM.Value.Ok (VM.Value.VBool true) | _ => VM.Value.Wrong end
+  else if is "unit_name" then
+    match args with [VM.Value.VQ _] => VM.Value.Ok (VM.Value.VStr "") | _ => VM.Value.Wrong end
+  else if is "error" then
+    match args with [VM.Value.VStr m] => VM.Value.Err ("UserError: " ++ m) | _ => VM.Value.Wrong end
+  else VM.Value.Wrong.
 
-Definition pops : VM.Value.ops Z :=
-  {| VM.Value.q_unit := fun _ => 1%Z;   (* never reached: unit identifiers are outside the fragment *)
-     VM.Value.q_neg := Z.opp; VM.Value.q_fact := VM.Exec.zfact; VM.Value.q_arith := VM.Exec.zarith;
-     VM.Value.q_cmp := VM.Exec.zcmp; VM.Value.q_eqb := Z.eqb; VM.Value.q_show := VM.Exec.show_q;
-     VM.Value.fmt_spec := fun _ _ => VM.Value.Err "unmodelled-format-specifier";
-     VM.Value.ffi := pffi; VM.Value.proc := VM.Exec.zproc;
+Definition qops0 : VM.Value.ops Q :=
+  {| VM.Value.q_unit := fun _ => 1%Q;   (* never reached: unit identifiers are outside the fragment *)
+     VM.Value.q_neg := fun q => Qred (Qopp q); VM.Value.q_fact := qfact; VM.Value.q_arith := qarith;
+     VM.Value.q_cmp := qcmp; VM.Value.q_eqb := Qeq_bool; VM.Value.q_show := qshow;
+     VM.Value.fmt_spec := fun _ _ => unmodelled "format-specifier";
+     VM.Value.ffi := qffi; VM.Value.proc := fun _ _ => VM.Value.Wrong;
+     VM.Value.procs := ["print"; "assert"; "assert_eq"] |}.
+
+Definition qproc (name : string) (args : list (VM.Value.value Q)) : VM.Value.res (list string) :=
+  if String.eqb name "print" then
+    match args with
+    | [] => VM.Value.Ok [""]
+    | [VM.Value.VStr s] => VM.Value.Ok [s]
+    | [VM.Value.VQ q] => VM.Value.Ok [qshow q]
+    | [VM.Value.VBool b] => VM.Value.Ok [if b then "true" else "false"]
+    | [_] => unmodelled "print-of-compound-value"
+    | _ => VM.Value.Wrong
+    end
+  else if String.eqb name "assert" then
+    match args with
+    | [VM.Value.VBool true] => VM.Value.Ok []
+    | [VM.Value.VBool false] => VM.Value.Err "AssertFailed"
+    | _ => VM.Value.Wrong
+    end
+  else if String.eqb name "assert_eq" then
+    match args with
+    | [a; b] => if VM.Value.value_eqb qops0 a b then VM.Value.Ok [] else VM.Value.Err "AssertEq2Failed"
+    | _ => VM.Value.Wrong
+    end
+  else VM.Value.Wrong.
+
+Definition pops : VM.Value.ops Q :=
+  {| VM.Value.q_unit := fun _ => 1%Q;
+     VM.Value.q_neg := fun q => Qred (Qopp q); VM.Value.q_fact := qfact; VM.Value.q_arith := qarith;
+     VM.Value.q_cmp := qcmp; VM.Value.q_eqb := Qeq_bool; VM.Value.q_show := qshow;
+     VM.Value.fmt_spec := fun _ _ => unmodelled "format-specifier";
+     VM.Value.ffi := qffi; VM.Value.proc := qproc;
      VM.Value.procs := ["print"; "assert"; "assert_eq"] |}.
 
 (* how the CLI / docs print a value of the fragment *)
-Fixpoint show_value (v : VM.Value.value Z) : string :=
+Fixpoint show_value (v : VM.Value.value Q) : string :=
   match v with
-  | VM.Value.VQ q => VM.Exec.show_q q
+  | VM.Value.VQ q => qshow q
   | VM.Value.VBool true => "true"
   | VM.Value.VBool false => "false"
   | VM.Value.VStr s => """" ++ s ++ """"
   | VM.Value.VList l => "[" ++ Base.Show.join ", " (map show_value l) ++ "]"
-  | _ => "?"
+  | _ => unmodelled_mark
+  end.
+
+(* does the text contain the mark of an unmodelled rendering? *)
+Fixpoint has_mark (s : string) : bool :=
+  match s with
+  | EmptyString => false
+  | String _ r => String.prefix unmodelled_mark s || has_mark r
   end.
 
 (* ------------------------------------------------------------------ the pipeline *)
@@ -284,10 +597,29 @@ Definition parse_text (src : Syntax.Token.str) : option (list SS.stmt) :=
   end.
 
 (* session state: the checker's state and the VM-level program accepted so far *)
-Definition pstate := (T.tc * V.program Z)%type.
+Definition pstate := (T.tc * V.program Q)%type.
 
 Definition initial_registry : T.registry := T.mkReg [] [("Scalar", [])] [].
-Definition pinit : pstate := (T.mkTc [] initial_registry 0%N [], []).
+(* the pseudo function of interpolated strings (see tc_interp) is the only initial binding *)
+Definition pinit : pstate :=
+  let s0 := T.mkTc [] initial_registry 0%N [] in
+  match T.check [T.SForeign interp_fn [("T", false)] [("x", T.ADim (T.DName "T"))] T.AString] s0 with
+  | Dim.Model.Ok (_, s1) => (s1, [])
+  | Dim.Model.Err _ => (s0, [])
+  end.
+
+(* the names bound to functions: in the checker's environment, or defined by this very input *)
+Definition fn_names (stmts : list SS.stmt) : list string :=
+  flat_map (fun s => match s with
+                     | SS.StFn name _ _ _ _ _ _ => match str_to_string name with Some f => [f] | None => [] end
+                     | _ => []
+                     end) stmts.
+Definition isfn_in (tc : T.tc) (stmts : list SS.stmt) (f : string) : bool :=
+  match T.env_find (T.tc_env tc) f with
+  | Some (T.IdFunction _) => true
+  | Some _ => false
+  | None => existsb (String.eqb f) (fn_names stmts)
+  end.
 
 Definition mfuel : nat := Nat.pow 2 16.
 
@@ -297,7 +629,8 @@ Definition interpret_in (st : pstate) (src : Syntax.Token.str) : poutcome * psta
   | Syntax.Lexer.LOk ts =>
       match Syntax.Parser.parse ts with
       | Syntax.Parser.Ok stmts [] =>
-          match omap stmt_to_tc stmts, omap stmt_to_vm stmts with
+          let isfn := isfn_in (fst st) stmts in
+          match omap (stmt_to_tc isfn) stmts, omap (stmt_to_vm isfn) stmts with
           | Some tcs, Some vms =>
               match T.check tcs (fst st) with
               | Dim.Model.Err Dim.Model.EUnsupported => (POutOfFragment, st)
@@ -307,7 +640,9 @@ Definition interpret_in (st : pstate) (src : Syntax.Token.str) : poutcome * psta
                   let c := VM.Compile.compile (VM.Value.procs pops) prog in
                   if VM.Compile.code_too_large c then (POutOfFragment, st) else
                   match VM.Machine.run pops c mfuel with
-                  | VM.Value.Ok (_, Some v) => (POk (show_value v), (tc', prog))
+                  | VM.Value.Ok (_, Some v) =>
+                      let out := show_value v in
+                      if has_mark out then (POutOfFragment, st) else (POk out, (tc', prog))
                   | VM.Value.Ok (_, None) => (POk "-", (tc', prog))
                   | VM.Value.Err e =>
                       if String.prefix "unmodelled" e then (POutOfFragment, st) else (PRuntimeError e, st)
